@@ -247,4 +247,70 @@ static int c_deflate(const struct cparams *p, uint8_t *in, size_t len, uint8_t *
 	*outlen = cap - s->avail_out;
 	return r;
 }
+
+/* ---------- ISA-L inflate driver ---------- */
+struct dres { int ret, block_state, fault, calls; size_t out_len, in_pos; uint32_t crc; uint32_t total_out; };
+enum { DAPI_STATELESS, DAPI_STREAM };
+/* in: whole stream (+junk) in one buffer; out: capacity outcap. For DAPI_STREAM isal_inflate is called until FINISH / error / no progress. */
+static void c_inflate(int api, int crc_flag, int hist_bits, uint8_t *in, size_t inlen, uint8_t *out, size_t outcap, struct dres *r, struct inflate_state **stp)
+{
+	struct inflate_state *st = g_alloc(sizeof *st, G_END);
+	memset(r, 0, sizeof *r);
+	if (stp)
+		*stp = st;
+	if (!V_TRY()) {
+		r->fault = 1;
+		return;
+	}
+	isal_inflate_init(st);
+	st->crc_flag = crc_flag;
+	st->hist_bits = hist_bits;
+	st->next_in = in;
+	st->avail_in = (uint32_t)inlen;
+	st->next_out = out;
+	st->avail_out = (uint32_t)outcap;
+	if (api == DAPI_STATELESS) {
+		r->ret = isal_inflate_stateless(st);
+		r->calls = 1;
+	} else {
+		for (;;) {
+			uint32_t ai = st->avail_in, ao = st->avail_out;
+			int bs = st->block_state;
+			r->ret = isal_inflate(st);
+			r->calls++;
+			if (r->ret < 0 || st->block_state == ISAL_BLOCK_FINISH || r->ret == ISAL_NEED_DICT)
+				break;
+			if ((st->avail_in == ai && st->avail_out == ao && (int)st->block_state == bs) || r->calls > 64)
+				break;
+		}
+	}
+	V_END();
+	r->block_state = st->block_state;
+	r->out_len = outcap - st->avail_out;
+	r->total_out = st->total_out;
+	r->in_pos = (inlen - st->avail_in) - (st->read_in_length > 0 ? st->read_in_length / 8 : 0);
+	r->crc = st->crc;
+}
+
+/* wrap a raw deflate body for an ISA-L inflate crc_flag mode. returns total length; *true_end = position a conforming reader stops at */
+static size_t wrap_stream(int crc_flag, const uint8_t *body, size_t blen, size_t end_bit, const uint8_t *x, size_t xlen, const struct rh_gzip *gh, uint8_t *o, size_t *true_end)
+{
+	size_t p = 0;
+	static const struct rh_gzip plain = { 0, 0, 0, 0xff, NULL, -1, NULL, NULL, 0 };
+	if (crc_flag == ISAL_GZIP)
+		p += rh_gzip_write(o, gh ? gh : &plain);
+	else if (crc_flag == ISAL_ZLIB) {
+		struct rh_zlib zh = { 7, 2, 0, 0 };
+		p += rh_zlib_write(o, &zh);
+	}
+	memcpy(o + p, body, blen);
+	size_t body_end = p + (end_bit + 7) / 8;
+	p += blen;
+	if (crc_flag == ISAL_GZIP || crc_flag == ISAL_GZIP_NO_HDR || crc_flag == ISAL_GZIP_NO_HDR_VER)
+		p += rh_gzip_trailer(o + p, ri_crc32(0, x, xlen), (uint32_t)xlen);
+	else if (crc_flag != ISAL_DEFLATE)
+		p += rh_zlib_trailer(o + p, ri_adler32(1, x, xlen));
+	*true_end = (crc_flag == ISAL_DEFLATE || crc_flag == ISAL_GZIP_NO_HDR || crc_flag == ISAL_ZLIB_NO_HDR) ? body_end : p;
+	return p;
+}
 #endif
